@@ -1,8 +1,10 @@
 """C01 — in-circuit STARK verification agrees with native verification.
 
 (also: prover-side forgeries — proofs of false statements made by an adversarial prover, the input region
-in which a single algebraic check (OOD identity, cross-AIR terminal sum) is the only one that fails; see
-`rule` in the coverage and design_notes/C01.md)
+in which a single algebraic check (OOD identity, cross-AIR terminal sum) is the only one that fails; and
+verifying FRI parameters that are not the symmetric test defaults — asymmetric / zero / large grinding bit
+counts, a second parameter set for the hiding PCS too — with a lazy prover that grinds fewer (or more) bits
+than demanded, for every PCS flavour; see `rule` in the coverage and design_notes/C01.md)
 
 Plug-in for bin/check (see bin/checks.py). One harness run (`p3r-harness starkfaults`):
 real uni-STARK / batch-STARK proofs (BabyBear and KoalaBear; preprocessed columns, lookups, ZK,
@@ -14,7 +16,7 @@ honest outcome, the native transcript structure and the element inventory are co
 line with what the real code did (recording challenger on the native verifier, leaf counts of the
 serialised proof).
 """
-import json, os
+import json, os, re
 
 PROPERTY = "C01"
 
@@ -94,6 +96,22 @@ def run(ctx):
                                    "what": f"no forged proof is rejected natively with {needle}: the prover-side forgeries no "
                                            f"longer exercise that check (native verdicts seen: {forged_native})",
                                    "replay": {"cmd": cmd}, "no_input": True})
+        # under-ground proofs: for every PCS flavour and each phase some proof must be rejected natively by the
+        # proof-of-work check alone (otherwise the bit count the circuit uses there is no longer exercised)
+        for fam in ("uni", "unizk", "batch", "batchzk"):
+            for phase in ("commit", "query"):
+                if not hist.get(f"forge-pow-native-reject:{fam}:{phase}"):
+                    violations.append({"class": f"forge-campaign-lost-power:pow-{phase}:{fam}",
+                                       "what": f"no proof under-ground in the {phase} phase is rejected natively with "
+                                               f"InvalidPowWitness for PCS flavour {fam}",
+                                       "replay": {"cmd": cmd}, "no_input": True})
+        # … and honest proofs under asymmetric verifying parameters must exist for every flavour
+        for fam in ("uni", "unizk", "batch", "batchzk", "tables"):
+            if not any(k.startswith(f"honest:{fam}/") and re.search(r"-c\d+q\d+:", k) and k.endswith(":accept/accept")
+                       for k in hist):
+                violations.append({"class": f"forge-campaign-lost-power:asymmetric-pow-target:{fam}",
+                                   "what": f"no accepted honest proof under asymmetric grinding bit counts for {fam}",
+                                   "replay": {"cmd": cmd}, "no_input": True})
     cov = {"evaluations": rep["evaluations"], "distinct_nontrivial": rep["distinct"],
            "rule": "one evaluation = one (proof, public values, verifying data) triple judged by the real native verifier and by "
                    "the real verification circuit (build + pack_values + runner); distinct = distinct altered positions "
@@ -110,7 +128,17 @@ def run(ctx):
                    "auxiliary trace or of the quotient — so every transcript- and Merkle-bound value is consistent "
                    "and exactly one algebraic check (OOD identity of one instance / cross-AIR terminal sum) decides; "
                    "one evaluation = one forged proof judged natively, by a circuit rebuilt for it and by the honest "
-                   "proof's circuit; distinct = distinct forgery ids per target",
+                   "proof's circuit; distinct = distinct forgery ids per target. "
+                   "Plus verifying FRI parameters that are not the symmetric test defaults, for every PCS flavour "
+                   "(uni / batch x TwoAdicFriPcs / HidingFriPcs, and the circuit tables): commit < query bits (1+8), no "
+                   "commit-phase grinding (0+3, 0+2), commit > query bits (3+1), 2+3, and the second parameter set "
+                   "(blowup 2, arity 4, final polynomial of length 2, 3 queries) for the hiding PCS; on each of them and "
+                   "on every target whose config is built by the harness the same adversarial prover proves the TRUE "
+                   "statement but grinds other bit counts than the verifying parameters demand (forgery id grind:c:q — "
+                   "one bit short, one bit only, none, per phase and for both phases, and more than demanded): the proof "
+                   "is well formed except that a proof-of-work witness does not satisfy the demanded number of bits",
+           "pow_under_ground_native_rejections": {k[len("forge-pow-native-reject:"):]: v for k, v in hist.items()
+                                                  if k.startswith("forge-pow-native-reject:")},
            "forged_native_verdicts": forged_native,
            "forged_proofs": sum(t.get("forged_proofs") or 0 for t in rep["targets"]),
            "forgeries_refused_by_prover": sum(t.get("forgeries_refused_by_prover") or 0 for t in rep["targets"]),
@@ -134,6 +162,10 @@ CHECK = {
         "P3R.C01.verdict_agree", "P3R.C01.batch_verdict_agree",
         "P3R.C01.terminal_mem_present", "P3R.C01.terminal_sum_checked", "P3R.C01.ood_checked",
         "P3R.C01.failing_check_rejected", "P3R.C01.unbalanced_bus_rejected",
+        "P3R.C01.native_fri_pow", "P3R.C01.get_challenges_pow", "P3R.C01.circuit_batch_pow", "P3R.C01.circuit_uni_pow",
+        "P3R.C01.failing_pow_rejected", "P3R.C01.under_ground_query_rejected", "P3R.C01.under_ground_commit_rejected",
+        "P3R.C01.uni_under_ground_query_rejected", "P3R.C01.uni_under_ground_commit_rejected",
+        "P3R.Witness.C01.zk_asym_pow_events",
         "P3R.Witness.C01.bus_mixed_terminal_sum",
         "P3R.Witness.C01.uni_zk_scripts_equal", "P3R.Witness.C01.uni_nonext_scripts_equal",
         "P3R.Witness.C01.uni_scripts_equal_full_false",
@@ -149,6 +181,9 @@ CHECK = {
         "model-circuit = model-native (theorem); the circuit's own observe calls are not logged (CircuitChallenger is a "
         "concrete type inside verify_*_circuit)",
         "serde_json round trip of proofs (positions whose altered value does not deserialise are skipped and counted)",
+        "under-ground proofs are made by giving the prover a config with other grinding bit counts than the verifier's "
+        "(thread-local override read by the harness's own config makers; a target whose config ignores it yields no "
+        "grind forgery, and the override is never alive while a verifier or a circuit is built)",
         "the adversarial prover harness/src/c01_forge_prover.rs (copy of p3_batch_stark::prove_batch / "
         "p3_uni_stark::prove_with_preprocessed 0.6.3 without the debug-only self-checks, plus hooks): it only has to "
         "produce proofs; that it has not drifted from the stock provers is checked on every run (byte-identical proof on "
@@ -181,8 +216,10 @@ MANIFEST_ENTRY = {
                  "+ prover-side forgeries (an adversarial copy of the p3 provers proves false statements: every algebraic "
                  "check — OOD identity per instance, cross-AIR LogUp terminal sum — is made the only failing one; native "
                  "verdict vs circuit outcome) "
-                 "+ differential correspondence of the model with the recorded native transcript and with the checks seen "
-                 "decisive on forged proofs",
+                 "+ asymmetric / non-default verifying FRI parameters for every PCS flavour with a lazy prover grinding fewer "
+                 "(or more) proof-of-work bits than demanded "
+                 "+ differential correspondence of the model with the recorded native transcript and with the checks / "
+                 "proof-of-work phases seen decisive on forged proofs",
     "level_claimed": {
         "category": "proof",
         "text": "for every proof shape (any number of instances, widths, chunk counts, lookups, preprocessed columns, ZK, FRI "
@@ -195,7 +232,7 @@ MANIFEST_ENTRY = {
     },
     "level_note": "Lean kernel + 3 standard axioms; composition level only (components are other properties); the model's "
                   "circuit side is tied to the code indirectly (see trusted base); fault enumeration covers every numeric "
-                  "leaf of 30 real proofs (36 targets; single-element alterations) and ~1200 forged proofs of false statements "
-                  "(trace / public value / terminal / auxiliary trace / quotient) on the 30 accepted targets; tiny FRI "
-                  "parameters; FRI-internal forgeries (inconsistent folding) are not produced (C07)",
+                  "leaf of 58 real proofs (64 targets; single-element alterations) and ~2200 forged proofs (false statements: "
+                  "trace / public value / terminal / auxiliary trace / quotient; true statements with under- / over-ground "
+                  "proof-of-work witnesses) on the accepted targets; tiny FRI parameters (grinding bit counts 0..9); FRI-internal forgeries (inconsistent folding) are not produced (C07)",
 }
